@@ -2,6 +2,7 @@ package sim
 
 import (
 	"context"
+	"errors"
 	"fmt"
 	"net/url"
 	"reflect"
@@ -62,18 +63,18 @@ type Hooks struct {
 
 // Proxy implements every storage interface fosite type-asserts and delegates to the real MemoryStore.
 type Proxy struct {
-	M       *storage.MemoryStore
-	Variant string
-	Copy    bool // DB-like: records deep-copied on write and read
+	M        *storage.MemoryStore
+	Variant  string
+	Copy     bool // DB-like: records deep-copied on write and read
 	Contract bool // device codes: invalidated => kept, returned with ErrInvalidatedDeviceCode
-	H       Hooks
+	H        Hooks
 
 	invalidDevice map[string]fosite.DeviceRequester
 	WriteLog      []string // global log of write calls "name key" (for C10 no-write oracle)
 	TotalCalls    int
 	txOpen        bool
 	txSnap        *snapshot
-	TxTrace       []string // BEGIN / COMMIT / ROLLBACK / ops within tx, per world (reset by executor per request)
+	TxTrace       []string          // BEGIN / COMMIT / ROLLBACK / ops within tx, per world (reset by executor per request)
 	TxFail        map[string]string // "begin"|"commit"|"rollback" -> error kind to inject once
 }
 
@@ -122,7 +123,14 @@ func (p *Proxy) do(ctx context.Context, name string, keys []string, req fosite.R
 func (p *Proxy) trace(t *TaskCtx, name string, err error) {
 	s := name
 	if err != nil {
-		s += ":ERR"
+		switch {
+		case errors.Is(err, fosite.ErrNotFound):
+			s += ":NF" // sentinel answers ("no such record") are not failed operations
+		case errors.Is(err, fosite.ErrInactiveToken), errors.Is(err, fosite.ErrInvalidatedAuthorizeCode), errors.Is(err, fosite.ErrInvalidatedDeviceCode):
+			s += ":INACTIVE"
+		default:
+			s += ":ERR"
+		}
 	}
 	if t != nil {
 		t.Trace = append(t.Trace, s)
